@@ -540,6 +540,9 @@ pub struct Ctx {
     /// by `judge_panic` are recorded; the workloads' own semantic oracles are
     /// counted but not reported (they belong to their own property's check).
     pub panics_only: bool,
+    /// Multiplier applied by `budget()`; C20 re-runs other properties' workloads
+    /// at a reduced scale in its quick tier.
+    pub scale: f64,
     pub trace: bool,
     out: PathBuf,
     start: Instant,
@@ -620,6 +623,7 @@ impl Ctx {
             rng: Rng::derive(args.seed, &args.id, args.shard.0 as u64),
             policy: PanicPolicy::Any,
             panics_only: false,
+            scale: 1.0,
             trace: args.trace,
             out: args.out.clone(),
             start: Instant::now(),
@@ -647,6 +651,10 @@ impl Ctx {
     #[inline]
     pub fn mine(&self, i: usize) -> bool {
         i % self.shard.1 == self.shard.0
+    }
+    /// Tier-dependent budget scaled by `self.scale` (at least 1).
+    pub fn budget(&self, quick: usize, thorough: usize) -> usize {
+        ((self.tier.pick(quick, thorough) as f64 * self.scale) as usize).max(1)
     }
     pub fn is_strict(&self) -> bool {
         cfg!(debug_assertions)
